@@ -86,7 +86,7 @@ const wellFormed = "well-formed schemas (DESIGN 3.0.5): A1 built by the public c
 func init() {
 	register(&PropSpec{
 		ID: "C01",
-		Explanation: "Decided (structural parts of the round trip): R-DELEG - for every type with typed entry points each pair (XType, X) is a delegation on the same receiver, or both " +
+		Explanation: "Decided R-CODEC - the transport's CBOR modes are as wide as the schemas; R-DISCPRESENT / R-STOREALL - the typed discriminator is stored on every accepting Unserialize path, every way round the struct mapper stores the supplied value. (structural parts of the round trip): R-DELEG - for every type with typed entry points each pair (XType, X) is a delegation on the same receiver, or both " +
 			"members consult every constraint field on all accepting paths; R-BOUNDFORM - the typed and untyped paths test the same quantity against the same bound in the " +
 			"same inclusive form; R-DYNTYPE - the non-error result of every Serialize / SerializeType is, by interprocedural dynamic-type provenance, a wire type " +
 			"(int64, float64, string, bool, []any, map[any]any, map[string]any; results produced by reflection are listed, not decided); R-ASSERT - the unchecked " +
@@ -116,7 +116,7 @@ func init() {
 	})
 	register(&PropSpec{
 		ID: "C03",
-		Explanation: "Decided: R-OBJ - the presence-rule evaluator is reached on every accepting path of ObjectSchema Unserialize / Validate / Serialize (map-based and struct-mapped " +
+		Explanation: "Decided: R-UNSETNIL - presence of struct-mapped properties: nil pointer / slice / map and the zero value of a disabled property are unset, unexported fields are refused; R-REBUILT - constructor-only fields are never used without a test for the unfilled case. R-OBJ - the presence-rule evaluator is reached on every accepting path of ObjectSchema Unserialize / Validate / Serialize (map-based and struct-mapped " +
 			"branches); its set/unset dispatch, and the rejects for required, required_if, required_if_not and conflicts have the declared polarity; undeclared and non-string " +
 			"keys are rejected wherever supplied keys are walked; a value derived from GetDefaults() is stored only under a failed lookup of the same key (a supplied value is " +
 			"never overridden); a disabled property is never unserialized and the object code cannot bypass PropertySchema.Unserialize; the inline shorthand is guarded by " +
@@ -135,7 +135,7 @@ func init() {
 	})
 	register(&PropSpec{
 		ID: "C02",
-		Explanation: "Decided: R-MUSTUSE - every declared constraint (json min, max, pattern, values) is read on every accepting path of Unserialize, Validate, Serialize and the typed " +
+		Explanation: "Decided: R-CONVKIND - conversions of values in Validate / Serialize only between agreeing kinds, unsigned values above MaxInt64 excluded; R-FMTPREC - no float becomes a string value through a fixed-precision verb. R-MUSTUSE - every declared constraint (json min, max, pattern, values) is read on every accepting path of Unserialize, Validate, Serialize and the typed " +
 			"variants of every schema type (interprocedural must-analysis over callees on the same receiver); R-BOUNDFORM - each comparison with a bound is the inclusive form " +
 			"(reject iff q < min / q > max), its violating branch returns an error, the measured quantity is the value (numbers) or its length (sized kinds) and all " +
 			"comparisons of one type agree on it; float tests exclude NaN; R-NARROW - lossy conversions to int64 in the input mappers are range- or round-trip-guarded; " +
@@ -157,7 +157,7 @@ func init() {
 	})
 	register(&PropSpec{
 		ID: "C04",
-		Explanation: "Decided: no reachable unguarded panic site of three classes in the functions reachable from Unserialize/Validate/Serialize/ValidateCompatibility " +
+		Explanation: "Decided: R-UNSETNIL (CanInterface clause) and R-REFLECT (e, f) - field access through the field cache does not walk through nil embedded pointers, values of unexported fields are not read, Convert to run-time types needs CanConvert. no reachable unguarded panic site of three classes in the functions reachable from Unserialize/Validate/Serialize/ValidateCompatibility " +
 			"(and typed variants) of all Serializable implementers, outside recover scopes - R-ASSERT: every single-value type assertion is justified by dynamic-type " +
 			"provenance, a validator summary, a TypeID gate, the meta-root argument, or a named structural exception class; R-NILGUARD: every dereference of a field or " +
 			"parameter that the repository itself compares with nil is dominated by a non-nil fact on the same access path (dominator facts + must-dataflow for lazy-init); " +
@@ -186,7 +186,7 @@ func init() {
 	})
 	register(&PropSpec{
 		ID: "C05",
-		Explanation: "Decided: R-LOCKSET - for every struct with a mutex (ATP client, ATP server session, callable step) the guarded fields are inferred (accessed under " +
+		Explanation: "Decided: R-DECODERX - every Decode on the connection's decoder is exclusive; R-CODEC - CBOR modes as wide as the schemas; R-PAIR - a result that has arrived is never overwritten. R-LOCKSET - for every struct with a mutex (ATP client, ATP server session, callable step) the guarded fields are inferred (accessed under " +
 			"the mutex and mutable after construction; shared cbor encoders, the client's pending table, signal table and running flag are required to be guarded) and every " +
 			"access outside construction holds the mutex on all paths (must-lockset dataflow, helpers inherit the locks of all call sites, a goroutine started inside a " +
 			"critical section and joined before the unlock counts as inside). This is the structural part of 'never corrupted by interleaved writes / delivered to a different " +
@@ -207,7 +207,7 @@ func init() {
 	})
 	register(&PropSpec{
 		ID: "C06",
-		Explanation: "Decided (structural necessary conditions for the absence of lost hand-overs and lost wake-ups in the client): R-ATOMIC - the running flag is cleared only " +
+		Explanation: "Decided R-SIGORDER, R-DONEGATE, R-SIGCHAN - the signal forwarder starts after the work start is written, runs are registered only on an open client, emitted signals are handed over with a way out and only by the read loop's goroutine. (structural necessary conditions for the absence of lost hand-overs and lost wake-ups in the client): R-ATOMIC - the running flag is cleared only " +
 			"in a critical section that also scans the pending table, and set in the section that tested it and starts the read loop; presence-check-then-insert on guarded " +
 			"tables happens in one critical section; R-MUSTPASS - every exit of the read loop has cleared the running flag since the last read; R-PAIR - the result store is " +
 			"followed by Signal in the same critical section and Wait is guarded by a test of the condition; R-WG - Add dominates each go whose goroutine calls Done, Done is " +
@@ -230,7 +230,7 @@ func init() {
 	})
 	register(&PropSpec{
 		ID: "C07",
-		Explanation: "Decided: R-CHAN - no goroutine can send on the error channel after its close (close must be joined with all sending goroutines), the report loop only " +
+		Explanation: "Decided: R-PLUGINPANIC - no explicit panic in the plugin entry point. R-CHAN - no goroutine can send on the error channel after its close (close must be joined with all sending goroutines), the report loop only " +
 			"stops when the channel is closed or hands over to a deferred drain that keeps receiving until then, no report is sent non-blockingly, and the client's signal channels are closed/sent under one discipline; R-RECOVER - every " +
 			"goroutine that runs step code does so below a recover scope; R-EXACTLYONE - every path of the step runner, including the panic path through the recover handler, " +
 			"emits exactly one terminal message; R-WG for the server goroutines; R-MAPNIL - unknown step / signal IDs cannot be dereferenced (server side of C11). " +
@@ -249,7 +249,7 @@ func init() {
 	})
 	register(&PropSpec{
 		ID: "C08",
-		Explanation: "Decided: R-DELIVER - every decode/unmarshal error in the client reaches the affected waiter(s) (result store + wake-up) or the caller's return value, and " +
+		Explanation: "Decided: R-WORKDONE - success results only from work-done messages with an output ID; R-CLIENTPANIC - no explicit panic reachable from the client's methods beyond two accepted invariants. R-DELIVER - every decode/unmarshal error in the client reaches the affected waiter(s) (result store + wake-up) or the caller's return value, and " +
 			"every decoded runtime message is handed to a handler; R-MUSTPASS - every exit of the read loop has failed all waiters or found none, and cleared the running " +
 			"flag in that critical section, so later Execute calls start a new reader (which fails again on a dead stream); R-WG(c) - Close cancels before it waits. " +
 			"R-STRICTDEC - every CBOR decoding call in the client's methods uses the client's strict DecMode (unknown fields are errors), never the package-level cbor.Unmarshal / NewDecoder; R-DECODEEXIT - as in C07. NOT decided: which corruptions the CBOR decoder reports as errors; timing.",
@@ -267,7 +267,7 @@ func init() {
 	})
 	register(&PropSpec{
 		ID: "C11",
-		Explanation: "Decided: R-DOM/R-FLOW - the step and signal handlers are invoked at exactly one site, outside loops, dominated by a successful Validate of the very value " +
+		Explanation: "Decided: R-ASSERT over the call layer - assertions on the handler's input and the run's step data are justified for the nil interface too. R-DOM/R-FLOW - the step and signal handlers are invoked at exactly one site, outside loops, dominated by a successful Validate of the very value " +
 			"they receive; CallStep/CallSignal call the step only after a successful Unserialize and pass exactly its result; an accepting return of Call follows the " +
 			"declared-output lookup and carries the output schema's verdict; R-ERRPROV - unknown ID, rejected input and undeclared output each map to their own error type; " +
 			"R-MAPNIL - unknown step/signal/output IDs are never dereferenced; R-STEPDATA + R-ATOMIC - the per-run step data is inserted only on a miss of the same run ID, in " +
@@ -418,7 +418,7 @@ func init() {
 	})
 	register(&PropSpec{
 		ID: "C18",
-		Explanation: "Decided: R-TYPEID - the handler's parameter and result types (values of reflect.Type.In/Out) influence acceptance only through identity comparison with a " +
+		Explanation: "Decided: R-ACCEPT - IsNil() and IsVariadic() of the handler consulted on every accepting path; R-CALL - a panic of the handler is caught. R-TYPEID - the handler's parameter and result types (values of reflect.Type.In/Out) influence acceptance only through identity comparison with a " +
 			"reflect.Type or through Kind(), never through their name/String or Implements/AssignableTo/ConvertibleTo; R-REFLECT - Handler.Type() is only reached after " +
 			"Kind() == Func was established (locally, by a callee's accepting return, or at every call site); R-DOM - the reflective handler call is dominated by " +
 			"len(arguments) == NumIn and is not in a loop; R-ERRPROV - every error returned by Call is a FunctionCallError constructed there, flagged function-reported exactly " +
